@@ -207,6 +207,12 @@ class Check(PropertyCheck):
             except TypeError:
                 exp = "None"
                 self.stat("encode_result", "TypeError")
+            except Exception as e:  # noqa: BLE001 -- any other exception is an outcome the model does not have
+                exp = "None"
+                self.stat("encode_result", "other:" + type(e).__name__)
+                if not hasattr(self, "crashes"):
+                    self.crashes = []
+                self.crashes.append((v, f"{type(e).__name__}: {e}"))
             terms.append(f"opt_eq bytes_eq (enc_py {cq_pyval(v)}) {exp}")
             descr.append(("enc", repr(v)))
             self.stat("encode_kind", type(v).__name__)
@@ -219,7 +225,7 @@ class Check(PropertyCheck):
             v = g.value(self.rng.randint(0, 3))
             try:
                 b = bencode(v)
-            except TypeError:
+            except Exception:  # noqa: BLE001 -- judged by the encoder cases and the oracle
                 continue
             m = i % 4
             if m == 1 and b:
@@ -263,11 +269,15 @@ class Check(PropertyCheck):
                 bencode(v)
             except TypeError:
                 return None
+            except Exception as e:  # noqa: BLE001
+                return f"a non-encodable value was not rejected with TypeError but raised {type(e).__name__}: {e}"
             return "a non-encodable value was encoded"
         try:
             b = bencode(v)
         except TypeError:
             return "an encodable value was rejected"
+        except Exception as e:  # noqa: BLE001
+            return f"encoding an encodable value raised {type(e).__name__}: {e}"
         try:
             back = bdecode(b)
         except Exception as e:  # noqa
